@@ -452,7 +452,15 @@ class Ctx:
                 raise InternalError("driver build failed: " + log[-800:])
             self.extra["DEV_SKIP_LEAN"] = True
             return True
-        targets = [f"PfVerif.Props.{prop}", "PfVerif.Driver.All"] + list(extra_targets)
+        targets = [f"PfVerif.Props.{prop}", "PfVerif.Driver.All", "PfVerif.Audit.Tool"] + list(extra_targets)
+        # property theorems that live in lemma modules (import order) are listed in the audit file
+        af = os.path.join(LEAN, "PfVerif", "Audit", f"{prop}.lean")
+        extra_mods = []
+        if os.path.exists(af):
+            for im in _IMPORT_RX.findall(open(af).read()):
+                if im not in targets and not im.startswith("PfVerif.Audit"):
+                    targets.append(im)
+                    extra_mods.append(im)
         if self.tier == "thorough":
             # re-elaborate the property's theorem file from scratch
             for t in [os.path.join(LEAN, "PfVerif", "Props", f"{prop}.lean")]:
@@ -466,7 +474,7 @@ class Ctx:
         if not ok:
             self.ties_broken.append({"kind": "lean-build", "detail": self.lean_log[-1500:]})
             return False
-        bad = forbidden_scan([f"PfVerif.Props.{prop}", "PfVerif.Driver.All"])
+        bad = forbidden_scan([f"PfVerif.Props.{prop}", "PfVerif.Driver.All"] + extra_mods)
         if bad:
             self.ties_broken.append({"kind": "lean-forbidden-token", "detail": bad[:20]})
         ok, thms, log = audit_module(prop)
